@@ -1,1 +1,399 @@
-/-! C38 — property theorems (stub: nothing proved yet). -/
+import B6.Model.FeatureHeap
+import B6.Lemmas.FeatureHeap
+/-!
+# C38 — Callers' feature values are isolated from the world
+
+Theorems about `B6.Model.FeatureHeap`: feature structs whose slices point into a store of backing
+arrays; a mutable world (`world`, what `ModifiedFeatures.Update` stores) and any number of caller-held
+feature values (`vars`).  An operation sequence is any interleaving of: constructing a feature, `Clone`,
+every mutator of the feature API (`Mut`), `MergeFrom`, `world.AddFeature`, `world.AddTag/RemoveTag`.
+
+* `Sep` — every owner's arrays are allocated and no two different owners share an array — holds in the
+  empty state and is preserved by every operation (`step_ok`, `run_ok`, `reachable_sep`);
+* under `Sep` an operation changes what is observed of its *target* only (`Isolated`): every other caller
+  value and every (other) world entry keeps its struct and its observable value;
+* hence `add_isolates`, `clone_disjoint`, `clone_independent`.
+
+The theorems are about the code after the patches `fixes/C38-*.patch`; the `*_counterexample` theorems
+are about the bodies as they were (`Old.*`) and are the witnesses replayed by the harness corpus.
+-/
+namespace B6.Props.C38
+open B6.Model.FeatureHeap B6.Lemmas.FeatureHeap
+
+/-- all owners (world entries and caller values) are allocated and pairwise share no backing array -/
+def Sep (s : State) : Prop := Sep2 s.st s.world s.vars
+
+/-- the owner an operation writes through -/
+inductive Target where
+  | var (i : Nat)
+  | world (w : Nat)
+  /-- only allocates (a new caller value or a new world entry) -/
+  | fresh
+deriving DecidableEq, Repr
+
+def worldTarget (kind : Kind) (id : String) (world : List Feat) : Target :=
+  match findEntry kind id world with
+  | some w => .world w
+  | none => .fresh
+
+def target (s : State) : Op → Target
+  | .new _ _ _ => .fresh
+  | .clone _ => .fresh
+  | .upd i _ => .var i
+  | .merge i _ => .var i
+  | .add i =>
+    match s.vars[i]? with
+    | none => .fresh
+    | some f => worldTarget f.kind f.id s.world
+  | .wtag kind id _ _ => worldTarget kind id s.world
+  | .wrm kind id _ => worldTarget kind id s.world
+
+/-- everything except the target keeps its position, its struct and what is observed of it -/
+def Isolated (s : State) (t : Target) (s' : State) : Prop :=
+  (∀ w x, t ≠ .world w → s.world[w]? = some x → s'.world[w]? = some x ∧ view s'.st x = view s.st x) ∧
+  (∀ i x, t ≠ .var i → s.vars[i]? = some x → s'.vars[i]? = some x ∧ view s'.st x = view s.st x)
+
+theorem sep_init : Sep {} :=
+  ⟨by simp, by simp, by intro i j x y _ h; simp at h, by intro i j x y _ h; simp at h, by simp⟩
+
+/-! ## the four shapes an operation can have -/
+
+private theorem getElem?_set_other {l : List Feat} {i j : Nat} {x r' : Feat} (hne : j ≠ i)
+    (h : l[j]? = some x) : (l.set i r')[j]? = some x := by
+  rw [List.getElem?_set]
+  have : ¬ i = j := fun e => hne e.symm
+  simp [this, h]
+
+private theorem getElem?_push_old {l : List Feat} {j : Nat} {x c : Feat} (h : l[j]? = some x) :
+    (l ++ [c])[j]? = some x := by
+  have hlt : j < l.length := by
+    rcases Nat.lt_or_ge j l.length with h' | h'
+    · exact h'
+    · rw [List.getElem?_eq_none h'] at h; cases h
+  rw [List.getElem?_append_left hlt, h]
+
+/-- an operation through caller value `i` -/
+theorem ok_set_var {s : State} {i : Nat} {r r' : Feat} {st' : Store} (hs : Sep s)
+    (hi : s.vars[i]? = some r) (h : Step (fp r) s.st st' (fp r')) :
+    Sep { s with st := st', vars := s.vars.set i r' } ∧
+    Isolated s (.var i) { s with st := st', vars := s.vars.set i r' } := by
+  obtain ⟨h1, h2, h3⟩ := (Sep2.symm hs).set hi h
+  refine ⟨h1.symm, ?_, ?_⟩
+  · intro w x _ hx
+    exact ⟨hx, h3 x (List.mem_of_getElem? hx)⟩
+  · intro j x hj hx
+    have hne : j ≠ i := fun e => hj (by rw [e])
+    exact ⟨getElem?_set_other hne hx, h2 j x hne hx⟩
+
+/-- an operation through world entry `w` -/
+theorem ok_set_world {s : State} {w : Nat} {r r' : Feat} {st' : Store} (hs : Sep s)
+    (hi : s.world[w]? = some r) (h : Step (fp r) s.st st' (fp r')) :
+    Sep { s with st := st', world := s.world.set w r' } ∧
+    Isolated s (.world w) { s with st := st', world := s.world.set w r' } := by
+  obtain ⟨h1, h2, h3⟩ := Sep2.set hs hi h
+  refine ⟨h1, ?_, ?_⟩
+  · intro j x hj hx
+    have hne : j ≠ w := fun e => hj (by rw [e])
+    exact ⟨getElem?_set_other hne hx, h2 j x hne hx⟩
+  · intro j x _ hx
+    exact ⟨hx, h3 x (List.mem_of_getElem? hx)⟩
+
+/-- a new caller value made of new arrays -/
+theorem ok_push_var {s : State} {c : Feat} {st' : Store} (hs : Sep s)
+    (h : Step [] s.st st' (fp c)) :
+    Sep { s with st := st', vars := s.vars ++ [c] } ∧
+    Isolated s .fresh { s with st := st', vars := s.vars ++ [c] } := by
+  obtain ⟨h1, h2, h3⟩ := (Sep2.symm hs).push h
+  refine ⟨h1.symm, ?_, ?_⟩
+  · intro w x _ hx
+    exact ⟨hx, h3 x (List.mem_of_getElem? hx)⟩
+  · intro j x _ hx
+    exact ⟨getElem?_push_old hx, h2 x (List.mem_of_getElem? hx)⟩
+
+/-- a new world entry made of new arrays -/
+theorem ok_push_world {s : State} {c : Feat} {st' : Store} (hs : Sep s)
+    (h : Step [] s.st st' (fp c)) :
+    Sep { s with st := st', world := s.world ++ [c] } ∧
+    Isolated s .fresh { s with st := st', world := s.world ++ [c] } := by
+  obtain ⟨h1, h2, h3⟩ := Sep2.push hs h
+  refine ⟨h1, ?_, ?_⟩
+  · intro j x _ hx
+    exact ⟨getElem?_push_old hx, h2 x (List.mem_of_getElem? hx)⟩
+  · intro j x _ hx
+    exact ⟨hx, h3 x (List.mem_of_getElem? hx)⟩
+
+/-! ## every operation keeps the owners separated and changes its target only -/
+
+theorem step_ok {s s' : State} {op : Op} (hs : Sep s) (h : step s op = some s') :
+    Sep s' ∧ Isolated s (target s op) s' := by
+  cases op with
+  | new kind id n =>
+    simp only [step, Option.some.injEq] at h
+    subst h
+    exact ok_push_var hs (newFeat_step s.st kind id n)
+  | clone i =>
+    simp only [step] at h
+    cases hf : s.vars[i]? with
+    | none => rw [hf] at h; cases h
+    | some f =>
+      rw [hf] at h
+      simp only [Option.map_eq_some_iff] at h
+      obtain ⟨r, hr, he⟩ := h
+      subst he
+      exact ok_push_var hs (cloneFeat_step (st' := r.1) (c := r.2) hr)
+  | upd i m =>
+    simp only [step] at h
+    cases hf : s.vars[i]? with
+    | none => rw [hf] at h; cases h
+    | some f =>
+      rw [hf] at h
+      simp only [Option.map_eq_some_iff] at h
+      obtain ⟨r, hr, he⟩ := h
+      subst he
+      exact ok_set_var hs hf
+        (mutate_step (st' := r.1) (f' := r.2) hr (hs.valid2 f (List.mem_of_getElem? hf)))
+  | merge i j =>
+    simp only [step] at h
+    cases hf : s.vars[i]? with
+    | none => rw [hf] at h; simp at h
+    | some e =>
+      cases hg : s.vars[j]? with
+      | none => rw [hf, hg] at h; simp at h
+      | some o =>
+        rw [hf, hg] at h
+        simp only at h
+        split at h
+        · cases h
+        · simp only [Option.map_eq_some_iff] at h
+          obtain ⟨r, hr, he⟩ := h
+          subst he
+          exact ok_set_var hs hf
+            (mergeFrom_step (st' := r.1) (e' := r.2) hr (hs.valid2 e (List.mem_of_getElem? hf)))
+  | add i =>
+    simp only [step, target] at h ⊢
+    cases hf : s.vars[i]? with
+    | none => rw [hf] at h; cases h
+    | some f =>
+      rw [hf] at h
+      simp only at h ⊢
+      unfold worldTarget
+      cases hw : findEntry f.kind f.id s.world with
+      | none =>
+        rw [hw] at h
+        simp only [Option.map_eq_some_iff] at h ⊢
+        obtain ⟨r, hr, he⟩ := h
+        subst he
+        exact ok_push_world hs (cloneFeat_step (st' := r.1) (c := r.2) hr)
+      | some w =>
+        rw [hw] at h
+        simp only at h ⊢
+        cases he : s.world[w]? with
+        | none => rw [he] at h; cases h
+        | some e =>
+          rw [he] at h
+          simp only [Option.map_eq_some_iff] at h
+          obtain ⟨r, hr, hh⟩ := h
+          subst hh
+          exact ok_set_world hs he
+            (mergeFrom_step (st' := r.1) (e' := r.2) hr (hs.valid1 e (List.mem_of_getElem? he)))
+  | wtag kind id k v =>
+    simp only [step, target] at h ⊢
+    unfold worldTarget
+    cases hw : findEntry kind id s.world with
+    | none => rw [hw] at h; cases h
+    | some w =>
+      rw [hw] at h
+      simp only at h ⊢
+      cases he : s.world[w]? with
+      | none => rw [he] at h; cases h
+      | some e =>
+        rw [he] at h
+        simp only [Option.map_eq_some_iff] at h
+        obtain ⟨r, hr, hh⟩ := h
+        subst hh
+        exact ok_set_world hs he
+          (mutate_step (st' := r.1) (f' := r.2) hr (hs.valid1 e (List.mem_of_getElem? he)))
+  | wrm kind id k =>
+    simp only [step, target] at h ⊢
+    unfold worldTarget
+    cases hw : findEntry kind id s.world with
+    | none => rw [hw] at h; cases h
+    | some w =>
+      rw [hw] at h
+      simp only at h ⊢
+      cases he : s.world[w]? with
+      | none => rw [he] at h; cases h
+      | some e =>
+        rw [he] at h
+        simp only [Option.map_eq_some_iff] at h
+        obtain ⟨r, hr, hh⟩ := h
+        subst hh
+        exact ok_set_world hs he
+          (mutate_step (st' := r.1) (f' := r.2) hr (hs.valid1 e (List.mem_of_getElem? he)))
+
+/-- separation is an invariant of every history -/
+theorem run_ok {ops : List Op} : ∀ {s s' : State}, Sep s → run s ops = some s' → Sep s' := by
+  induction ops with
+  | nil => intro s s' hs h; simp only [run, Option.some.injEq] at h; exact h ▸ hs
+  | cons op ops ih =>
+    intro s s' hs h
+    simp only [run] at h
+    cases h1 : step s op with
+    | none => rw [h1] at h; cases h
+    | some s1 =>
+      rw [h1] at h
+      exact ih (step_ok hs h1).1 h
+
+/-- every state a program can reach from the empty world is separated — so `step_ok` applies to every
+step of every history (all feature kinds, all mutators, any interleaving) -/
+theorem reachable_sep {ops : List Op} {s : State} (h : run {} ops = some s) : Sep s :=
+  run_ok sep_init h
+
+example : (run {} [.new .area "a1" 1, .upd 0 (.setPathIDs 0 ["p10"]), .add 0,
+    .upd 0 (.setPathID 0 0 "p11"), .clone 0, .upd 1 (.setPolygon 0 "P1"), .add 1,
+    .new .collection "c1" 0, .upd 2 (.appendKV "k" "v"), .add 2, .upd 2 (.setKey 0 "x"),
+    .wtag .area "a1" "name" "w"]).isSome = true := by decide
+
+/-! ## the property -/
+
+/-- what the world returns: the observable value of every entry -/
+def worldView (s : State) : List (Option View) := s.world.map (view s.st)
+
+theorem worldView_eq {s s' : State} (hw : s'.world = s.world)
+    (hv : ∀ x ∈ s.world, view s'.st x = view s.st x) : worldView s' = worldView s := by
+  unfold worldView
+  rw [hw]
+  exact List.map_congr_left hv
+
+/-- Any sequence of mutations through caller value `i` leaves the world, and every other caller value,
+exactly as they were. -/
+theorem muts_isolated {ms : List Mut} {i : Nat} : ∀ {s s' : State}, Sep s →
+    run s (ms.map (Op.upd i)) = some s' →
+    Sep s' ∧ worldView s' = worldView s ∧
+      ∀ j x, j ≠ i → s.vars[j]? = some x → s'.vars[j]? = some x ∧ view s'.st x = view s.st x := by
+  induction ms with
+  | nil =>
+    intro s s' hs h
+    simp only [List.map_nil, run, Option.some.injEq] at h
+    subst h
+    exact ⟨hs, rfl, fun j x _ hx => ⟨hx, rfl⟩⟩
+  | cons m ms ih =>
+    intro s s' hs h
+    simp only [List.map_cons, run] at h
+    cases h1 : step s (.upd i m) with
+    | none => rw [h1] at h; cases h
+    | some s1 =>
+      rw [h1] at h
+      obtain ⟨hs1, hw1, hv1⟩ := step_ok hs h1
+      obtain ⟨hs2, hw2, hv2⟩ := ih hs1 h
+      have hworld : s1.world = s.world := by
+        simp only [step] at h1
+        cases hf : s.vars[i]? with
+        | none => rw [hf] at h1; cases h1
+        | some f =>
+          rw [hf] at h1
+          simp only [Option.map_eq_some_iff] at h1
+          obtain ⟨r, _, he⟩ := h1
+          subst he
+          rfl
+      refine ⟨hs2, ?_, ?_⟩
+      · rw [hw2]
+        exact worldView_eq hworld (fun x hx => by
+          obtain ⟨w, hw⟩ := List.mem_iff_getElem?.mp hx
+          exact (hw1 w x (by simp [target]) hw).2)
+      · intro j x hj hx
+        obtain ⟨a, b⟩ := hv1 j x (by simp only [target]; intro e; exact hj (Target.var.inj e).symm) hx
+        obtain ⟨c, d⟩ := hv2 j x hj a
+        exact ⟨c, d.trans b⟩
+
+/-- **`add_isolates`**: once a feature has been added to a mutable world (`ModifiedFeatures.Update`: a
+`Clone()` is stored, or the existing entry `MergeFrom`s it), no later change the caller makes to the
+value it passed in — any sequence of any mutators of the feature API — changes what the world returns. -/
+theorem add_isolates {s s1 s2 : State} {i : Nat} {ms : List Mut} (hs : Sep s)
+    (hadd : step s (.add i) = some s1) (hmut : run s1 (ms.map (Op.upd i)) = some s2) :
+    worldView s2 = worldView s1 :=
+  (muts_isolated (step_ok hs hadd).1 hmut).2.1
+
+/-- for histories: the same from any reachable state -/
+theorem add_isolates_reachable {ops : List Op} {s s1 s2 : State} {i : Nat} {ms : List Mut}
+    (hr : run {} ops = some s) (hadd : step s (.add i) = some s1)
+    (hmut : run s1 (ms.map (Op.upd i)) = some s2) : worldView s2 = worldView s1 :=
+  add_isolates (reachable_sep hr) hadd hmut
+
+example : ∃ s s1 s2, run {} [.new .area "a1" 1, .upd 0 (.setPathIDs 0 ["p10", "p12"])] = some s ∧
+    step s (.add 0) = some s1 ∧
+    run s1 ([Mut.setPathID 0 0 "p11", .setTag "k" "v", .setPolygon 0 "P"].map (Op.upd 0)) = some s2 ∧
+    (worldView s1).length = 1 := by
+  refine ⟨_, _, _, rfl, rfl, rfl, by decide⟩
+
+/-- **`clone_disjoint`**: `Clone()` (every feature kind) returns a feature made of newly allocated arrays
+only — so it shares nothing with its original nor with anything else that exists —, leaves every existing
+array untouched, and starts out observably equal to the original. -/
+theorem clone_disjoint {st st' : Store} {f c : Feat} (h : cloneFeat st f = some (st', c))
+    (hv : Valid st f) (hp : Proper f) :
+    (∀ a ∈ fp c, st.length ≤ a ∧ a < st'.length) ∧ Disj c f ∧
+    (∀ a, a < st.length → st'[a]? = st[a]?) ∧ view st' c = view st f ∧ view st' f = view st f := by
+  have hs := cloneFeat_step h
+  refine ⟨fun a ha => ⟨?_, hs.valid a ha⟩, disj_fresh hs hv, fun a ha => hs.frame a ha (by simp),
+    clone_view h hv hp, view_frame hs hv (by simp)⟩
+  rcases hs.sub a ha with h' | h'
+  · simp at h'
+  · exact h'
+
+example : ∃ st st' f c, cloneFeat st f = some (st', c) ∧ Valid st f ∧ Proper f ∧ fp f ≠ [] ∧ f.ids ≠ [] :=
+  ⟨[[.pair "k" "v"], [.scalar "p10"], [.scalar ""]], _,
+   { kind := .area, id := "a1", tags := some ⟨0, 1⟩, ids := [some ⟨1, 1⟩], polygons := some ⟨2, 1⟩ }, _,
+   rfl, by decide, by decide, by decide, by decide⟩
+
+/-- **clones are independent of their originals** (both directions): after `vars.push(vars[i].Clone())`
+any sequence of mutations of the clone leaves the original — and the world — unchanged, and any sequence
+of mutations of the original leaves the clone unchanged. -/
+theorem clone_independent {s s1 s2 : State} {i k : Nat} {ms : List Mut} (hs : Sep s)
+    (hc : step s (.clone i) = some s1) (hmut : run s1 (ms.map (Op.upd k)) = some s2) :
+    worldView s2 = worldView s1 ∧
+    ∀ j x, j ≠ k → s1.vars[j]? = some x → s2.vars[j]? = some x ∧ view s2.st x = view s1.st x :=
+  (muts_isolated (step_ok hs hc).1 hmut).2
+
+/-! ## the code as it was: the three sharing defects (fixed by `fixes/C38-*.patch`) -/
+
+/-- `AreaMembers.Clone` copied the outer slice only: `SetPathID` on the clone changed the original
+(confirmed on the real code; corpus witness). -/
+theorem area_clone_shares_counterexample :
+    let st : Store := [[.scalar "p10"], [.scalar ""]]
+    let f : Feat := { kind := .area, id := "a1", ids := [some ⟨0, 1⟩], polygons := some ⟨1, 1⟩ }
+    ∃ st1 c st2 c', Old.cloneFeat st f = some (st1, c) ∧
+      mutate st1 c (.setPathID 0 0 "p11") = some (st2, c') ∧ view st2 f ≠ view st1 f := by
+  refine ⟨_, _, _, _, rfl, rfl, by decide⟩
+
+/-- `CollectionFeature.Clone` shared `Keys`/`Values`: `Keys[0] = …` on the clone changed the original. -/
+theorem collection_clone_shares_counterexample :
+    let st : Store := [[.scalar "k1"], [.scalar "v1"]]
+    let f : Feat := { kind := .collection, id := "c1", keys := some ⟨0, 1⟩, values := some ⟨1, 1⟩ }
+    ∃ st1 c st2 c', Old.cloneFeat st f = some (st1, c) ∧
+      mutate st1 c (.setKey 0 "HACK") = some (st2, c') ∧ view st2 f ≠ view st1 f := by
+  refine ⟨_, _, _, _, rfl, rfl, by decide⟩
+
+/-- `CollectionFeature.MergeFrom` (what a world does when a collection is replaced) shared the caller's
+`Tags`, `Keys` and `Values`: a later `ModifyOrAddTag` by the caller changed the world's entry. -/
+theorem collection_merge_shares_counterexample :
+    let st : Store := [[.pair "name" "old"], [.pair "name" "two"], [.scalar "a"], [.scalar "b"]]
+    let e : Feat := { kind := .collection, id := "c1", tags := some ⟨0, 1⟩ }
+    let o : Feat := { kind := .collection, id := "c1", tags := some ⟨1, 1⟩, keys := some ⟨2, 1⟩,
+                      values := some ⟨3, 1⟩ }
+    ∃ st2 o', mutate st o (.setTag "name" "CALLER") = some (st2, o') ∧
+      view st2 (Old.mergeCollection e o) ≠ view st (Old.mergeCollection e o) := by
+  refine ⟨_, _, rfl, by decide⟩
+
+/-- `AreaMembers.MergeFrom` left a non-nil empty path list where the other area has a polygon member
+(`nil`): replacing `[polygon]` by `[polygon, polygon]` in a world lost the second polygon. -/
+theorem area_merge_polygon_member_counterexample :
+    let st : Store := [[.scalar "P1"], [.scalar "P1", .scalar "P2"]]
+    let e : Feat := { kind := .area, id := "a2", ids := [none], polygons := some ⟨0, 1⟩ }
+    let o : Feat := { kind := .area, id := "a2", ids := [none, none], polygons := some ⟨1, 2⟩ }
+    ∃ st' ids' p', Old.mergeAreaMembers st e o = some (st', ids', p') ∧
+      viewIds st' ids' ≠ viewIds st o.ids ∧
+      (∃ st'' ids'' p'', mergeAreaMembers st e o = some (st'', ids'', p'') ∧
+        viewIds st'' ids'' = viewIds st o.ids) := by
+  refine ⟨_, _, _, rfl, by decide, _, _, _, rfl, by decide⟩
+
+end B6.Props.C38
